@@ -171,6 +171,22 @@ def assignId (s : State) (a : Nat) : State :=
 
 /-! ### processNewCreatedMarks -/
 
+/-- the body of the `for _, child := range more` loop of incRefCreatedDescendants;
+    `recur` is the recursive call. -/
+def incRefChild (recur : State → Nat → State) (r a : Nat) (s : State) (c : Nat) : State :=
+  let s := incRc s c
+  let rc := (s.get c).rc
+  if rc = 1 then
+    if s.isReal c then
+      -- a deleted real became undeleted
+      markDirty (setOwner s c (some a)) r c
+    else
+      recur ((setOwner s c (some a)).modify c fun o => { o with newReal := true }) c
+  else if rc > 1 then
+    let s := markDirty s r c
+    if (s.get c).escaped then s else markNewEscaped s r c
+  else s.fail
+
 def incRef : Nat → State → Nat → Nat → State
   | 0, s, _, _ => s.fail
   | fuel + 1, s, r, a =>
@@ -178,25 +194,21 @@ def incRef : Nat → State → Nat → Nat → State
     else
       let s := assignId s a
       let s := s.modMarks r fun m => { m with created := m.created ++ [a] }
-      (s.children a).foldl (fun s c =>
-        let s := incRc s c
-        let rc := (s.get c).rc
-        if rc = 1 then
-          if s.isReal c then
-            -- a deleted real became undeleted
-            markDirty (setOwner s c (some a)) r c
-          else
-            incRef fuel ((setOwner s c (some a)).modify c fun o => { o with newReal := true }) r c
-        else if rc > 1 then
-          let s := markDirty s r c
-          if (s.get c).escaped then s else markNewEscaped s r c
-        else s.fail) s
+      (s.children a).foldl (incRefChild (fun s c => incRef fuel s r c) r a) s
 
 def processNewCreated (s : State) (r : Nat) : State :=
   (s.marksOf r).newCreated.foldl (fun s a =>
     if (s.get a).rc = 0 then s else incRef s.fuelFor s r a) s
 
 /-! ### processNewDeletedMarks -/
+
+/-- the body of the child loop of decRefDeletedDescendants -/
+def decRefChild (recur : State → Nat → State) (r : Nat) (s : State) (c : Nat) : State :=
+  let s := decRc s c
+  let rc := (s.get c).rc
+  if rc = 0 then recur s c
+  else if rc > 0 then markDirty s r c
+  else s.fail
 
 def decRef : Nat → State → Nat → Nat → State
   | 0, s, _, _ => s.fail
@@ -206,12 +218,7 @@ def decRef : Nat → State → Nat → Nat → State
       let s := s.modify a fun o =>
         { o with newDeleted := false, newReal := false, newEscaped := false, deleted := true }
       let s := s.modMarks r fun m => { m with deleted := m.deleted ++ [a] }
-      (s.children a).foldl (fun s c =>
-        let s := decRc s c
-        let rc := (s.get c).rc
-        if rc = 0 then decRef fuel s r c
-        else if rc > 0 then markDirty s r c
-        else s.fail) s
+      (s.children a).foldl (decRefChild (fun s c => decRef fuel s r c) r) s
 
 def processNewDeleted (s : State) (r : Nat) : State :=
   (s.marksOf r).newDeleted.foldl (fun s a =>
